@@ -1,7 +1,7 @@
 (* Correspondence entry point: one op name + arguments -> canonical observation.
    Extracted to OCaml (Extract.v) and driven by ocaml/driver.ml. *)
 From Ufw Require Gen.BfGen_LM Gen.BfGen_BM.
-From Ufw Require Import Base.Val Base.Bits Base.Errno Model.Crc Model.ByteBuffer Model.Endpoints Model.Varint Model.Ring Model.Slip Model.Lenp Model.Persist Model.BinFmt Gen.BfGen_LB Model.RegTable Model.Regp Model.Sx.
+From Ufw Require Import Base.Val Base.Bits Base.Errno Model.Crc Model.ByteBuffer Model.Endpoints Model.Varint Model.Ring Model.Slip Model.Lenp Model.Persist Model.BinFmt Gen.BfGen_LB Model.RegTable Model.Regp Model.Sx Model.BufEndpoints.
 Local Open Scope string_scope.
 Local Open Scope N_scope.
 
@@ -619,6 +619,50 @@ Definition run_sx (op : string) (a : list val) : list val :=
      :: match t_node tk with None => [VS "NULL"] | Some t => sx_render t end)%list
   else [VS "unknown-op"].
 
+(* ---------------- the library's buffer endpoints (C17): src/endpoints/buffer.c ---------------- *)
+Definition run_be (op : string) (a : list val) : list val :=
+  if String.eqb op "be.get" then
+    let size := argN 0 a in
+    if (size =? 0) || negb (N.of_nat (length (argH 3 a)) =? size) || (size <? argN 1 a) || (argN 1 a <? argN 2 a) then [VS "skip"] else
+    let b := mk_bbuf (argH 3 a) size (argN 1 a) (argN 2 a) in
+    let out (r : dres * list N * bbuf) := let '(rc, d, b') := r in [vdres rc; VN (N.of_nat (length d)); VH d; VN (bb_offset b'); VN (bb_used b')] in
+    if negb (argN 5 a =? 0) then out (get_chunk_atmost_d read_from_buffer b (argN 4 a))
+    else match buffer_get_chunk b (argN 4 a) with None => [VS "out-of-fuel"] | Some r => out r end
+  else if String.eqb op "be.chunks" then
+    let useds := argLN 0 a in let offs := argLN 1 a in
+    if (length useds =? 0)%nat || negb (length offs =? length useds)%nat || negb (forallb (fun p => negb (fst p =? 0) && (snd p <=? fst p)) (combine useds offs))
+       || negb (N.of_nat (length (argH 2 a)) =? fold_right N.add 0 useds) || (N.of_nat (length useds) <? argN 3 a) then [VS "skip"] else
+    let fix cut (us os : list N) (mem : list N) : list bbuf :=
+      match us, os with
+      | u :: us', o :: os' => mk_bbuf (firstn (N.to_nat u) mem) u u o :: cut us' os' (skipn (N.to_nat u) mem)
+      | _, _ => []
+      end in
+    let c := {| c_list := cut useds offs (argH 2 a); c_active := N.to_nat (argN 3 a) |} in
+    match chunks_get_chunk c (argN 4 a) with
+    | None => [VS "out-of-fuel"]
+    | Some (rc, d, c') => [vdres rc; VH d; VL (map (fun b => VN (bb_offset b)) (c_list c'))]
+    end
+  else if String.eqb op "be.put" then
+    let size := argN 0 a in
+    if (size =? 0) || negb (N.of_nat (length (argH 3 a)) =? size) || (size <? argN 1 a) || (argN 1 a <? argN 2 a) then [VS "skip"] else
+    if (argN 5 a <=? SSIZE_MAX) && (N.of_nat (length (argH 4 a)) <? argN 5 a) then [VS "skip"] else
+    let b := mk_bbuf (argH 3 a) size (argN 1 a) (argN 2 a) in
+    match buffer_put_chunk b (argH 4 a) (argN 5 a) with
+    | None => [VS "out-of-fuel"]
+    | Some (rc, b') => [vdres rc; VN (bb_used b'); VN (bb_offset b'); VH (firstn (N.to_nat size) (bb_mem b'))]
+    end
+  else if String.eqb op "be.sts" then
+    let ss := argN 0 a in let ks := argN 4 a in
+    if (ss =? 0) || (ks =? 0) || negb (N.of_nat (length (argH 3 a)) =? ss) || negb (N.of_nat (length (argH 6 a)) =? ks) || (ss <? argN 1 a)
+       || (argN 1 a <? argN 2 a) || (ks <? argN 5 a) then [VS "skip"] else
+    let s := mk_bbuf (argH 3 a) ss (argN 1 a) (argN 2 a) in
+    let k := mk_bbuf (argH 6 a) ks (argN 5 a) 0 in
+    match buf_sts_n (S (N.to_nat (bb_rest s) + 1)) (argN 7 a) (argN 7 a) s k with
+    | None => [VS "out-of-fuel"]
+    | Some (rc, s', k') => [vdres rc; VN (bb_offset s'); VN (bb_used k'); VH (firstn (N.to_nat ks) (bb_mem k'))]
+    end
+  else [VS "unknown-op"].
+
 Definition prefix_of (p s : string) : bool := String.prefix p s.
 
 Definition dispatch (op : string) (a : list val) : list val :=
@@ -628,6 +672,7 @@ Definition dispatch (op : string) (a : list val) : list val :=
   else if prefix_of "ring." op then run_ring op a
   else if prefix_of "slip." op then run_slip op a
   else if prefix_of "ep." op then run_ep op a
+  else if prefix_of "be." op then run_be op a
   else if prefix_of "lenp." op then run_lenp op a
   else if prefix_of "ps." op then run_ps op a
   else if prefix_of "bf." op then run_bf op a
